@@ -326,7 +326,9 @@ def main(argv=None):
     known_lines = []
     known_info = []
     for e in known_entries:
-        rp = e.get('replay')
+        rp = (e.get('replays') or {}).get(prop)
+        if not rp and e.get('replay') and (e.get('properties') or [e.get('property')])[0] == prop:
+            rp = e['replay']
         if not rp:
             continue
         path = os.path.join(VERIF, rp)
